@@ -1,7 +1,8 @@
 (* driver for the Client model: one case per line on stdin, one canonical result line per case.
 
    batch  <id> <w|r>:<linger 0|1>:<maxRequests>:<maxBytes> <script> <events>
-          script  = comma list of  ok | y | e<code> | s<P|D|R|G><d> | l<P|D|R|G><d>      ("-" = empty)
+          script  = comma list of entries  [p<k>+]...<final>,  final = ok | e<code> | s<P|D|R|G><d> | l<P|D|R|G><d>   ("-" = empty)
+                    p<k>: an attempt whose stream delivers the first k answers and then fails with a retriable status; y = p0+ok
           events  = comma list of  C<id>:<p|d|r|g>:<size> | T | X
           ->  per event (";"-separated) the observations in order ("," separated, "-" = none):
               S<n>:P<ids>:D<ids>:R<ids>:G<ids> | D<id>=ok<payload>|err<e>|shut | PANIC       (ids "."-separated, "-" = none)
@@ -31,12 +32,23 @@ let parse_cfg s =
   | _ -> failwith ("bad cfg " ^ s)
 
 let parse_bh s =
-  if s = "ok" || s = "y" then M.BhOk      (* y: a retriable error first, then ok -- invisible after doRequestWithRetries *)
+  if s = "ok" then M.BhOk
   else match s.[0] with
     | 'e' -> M.BhErr (n_of_string (sub_from s 1))
     | 's' -> M.BhShort (kind_of_char s.[1], nat_of_int (int_of_string (sub_from s 2)))
     | 'l' -> M.BhLong (kind_of_char s.[1], nat_of_int (int_of_string (sub_from s 2)))
     | _ -> failwith ("bad behaviour " ^ s)
+
+(* one script entry: attempts joined by "+": p<k> (the stream delivers the first k answers, then a retriable
+   error) ... and a final behaviour; "y" is short for p0+ok *)
+let parse_entry s =
+  if s = "y" then ([M.O], M.BhOk) else
+  let parts = String.split_on_char '+' s in
+  let rec go acc = function
+    | [last] -> (List.rev acc, parse_bh last)
+    | p :: tl when p.[0] = 'p' -> go (nat_of_int (int_of_string (sub_from p 1)) :: acc) tl
+    | _ -> failwith ("bad script entry " ^ s) in
+  go [] parts
 
 let parse_event s =
   if s = "T" then M.Tick else if s = "X" then M.Close
@@ -119,7 +131,7 @@ let () = read_lines (fun line ->
     match String.split_on_char ' ' line with
     | ["batch"; id; cfg; script; evs] ->
       let cfg = parse_cfg cfg in
-      let exec = M.scripted_exec (List.map parse_bh (list_of script)) in
+      let exec = M.scripted_exec (List.map parse_entry (list_of script)) in
       let tr = M.run_trace exec cfg M.init_state (List.map parse_event (list_of evs)) in
       Printf.printf "%s %s\n" id
         (String.concat ";" (List.map (fun o -> join_or_dash "," (List.map string_of_obs o)) tr))
